@@ -512,6 +512,10 @@ pub fn contract_monitor(cx: &mut SeqCtx, i: usize, op: &Op, before: &World, want
     let prop = cx.cfg.property.clone();
     let shape = cx.shape.clone();
     if i > 0 {
+        if matches!(want, Want::Unspec) {
+            // unspecified combination (only reachable through minimisation): model out of sync
+            return true;
+        }
         if let Some((k, d)) = judge(want, got) {
             let key = format!("{}|{}|{}|{}|{}", prop, shape, op.kind(), op_tclass(before, op), k);
             cx.violate(i, key, format!("{:?}: {}", op, d));
